@@ -742,7 +742,7 @@ func replayAll(l *Loaded, results []*HarnessResult, viols []*Violation, paths ma
 			}
 			if it.viol != nil {
 				repro := false
-				if it.viol.Kind == "assert" {
+				if it.viol.Kind == "assert" || it.viol.Kind == "alloc" {
 					for _, f := range r.Fails {
 						if f == it.viol.Label {
 							repro = true
